@@ -134,6 +134,8 @@ class Tr:
             if isinstance(st, ast.Return) and want is None:
                 ret = self.expr(st.value)
                 break
+            if isinstance(st, ast.Expr) and isinstance(st.value, ast.Constant):
+                continue
             if want is None:
                 raise TranslateError(f"statement {type(st).__name__} in {fn.name}")
         if ret is None:
@@ -209,7 +211,40 @@ def gen_C07():
     return out
 
 
-GENERATORS = {"C06": gen_C06, "C07": gen_C07}
+def gen_C14():
+    out = []
+    src, tree = _parse("models/NonparametricElectionModel.py")
+    fn = _find(tree, "NonparametricElectionModel", "get_minimum_reporting_units")
+    out.append(lean_def("np_min_units", [("alpha", "Rat")], "Rat", Tr(src, {"alpha": "alpha"}).body(fn)))
+    fn = _find(tree, "NonparametricElectionModel", "_compute_conf_frac")
+    out.append(lean_def("np_conf_frac", [("n", "Rat"), ("alpha", "Rat")], "Rat",
+                        Tr(src, {"alpha": "alpha", "n_reporting_units": "n"}).body(fn)))
+    fn = _find(tree, "NonparametricElectionModel", "get_unit_prediction_intervals")
+    tr = Tr(src, {"alpha": "alpha", "prediction_intervals.conformalization.shape[0]": "ncal"})
+    out.append(lean_def("correction_quantile", [("alpha", "Rat"), ("ncal", "Rat")], "Rat",
+                        "  " + tr.expr(assigned_expr(fn, "correction_quantile"))))
+    src, tree = _parse("models/ConformalElectionModel.py")
+    fn = _find(tree, "ConformalElectionModel", "get_unit_prediction_interval_bounds")
+    tr = Tr(src, {"self.n_train": "n", "conf_frac": "cf", "alpha": "alpha"})
+    out.append(lean_def("train_rows", [("n", "Rat"), ("cf", "Rat")], "Rat", "  " + tr.expr(assigned_expr(fn, "train_rows"))))
+    out.append(lean_def("upper_tau", [("alpha", "Rat")], "Rat", "  " + tr.expr(assigned_expr(fn, "upper_bound"))))
+    out.append(lean_def("lower_tau", [("alpha", "Rat")], "Rat", "  " + tr.expr(assigned_expr(fn, "lower_bound"))))
+    src, tree = _parse("models/GaussianElectionModel.py")
+    fn = _find(tree, "GaussianElectionModel", "_compute_conf_frac")
+    out.append(lean_def("gauss_conf_frac", [], "Rat", Tr(src, {}).body(fn)))
+    fn = _find(tree, "GaussianElectionModel", "get_minimum_reporting_units")
+    out.append(lean_def("gauss_min_units", [("alpha", "Rat")], "Rat",
+                        Tr(src, {"alpha": "alpha"}, calls={"self._compute_conf_frac": "gauss_conf_frac"}).body(fn)))
+    src, tree = _parse("models/BaseElectionModel.py")
+    fn = _find(tree, "BaseElectionModel", "get_minimum_reporting_units")
+    out.append(lean_def("base_min_units", [("alpha", "Rat")], "Rat", Tr(src, {"alpha": "alpha"}).body(fn)))
+    src, tree = _parse("models/BootstrapElectionModel.py")
+    fn = _find(tree, "BootstrapElectionModel", "get_minimum_reporting_units")
+    out.append(lean_def("boot_min_units", [("alpha", "Rat")], "Rat", Tr(src, {"alpha": "alpha"}).body(fn)))
+    return out
+
+
+GENERATORS = {"C06": gen_C06, "C07": gen_C07, "C14": gen_C14}
 
 HEADER = """import ElexModel.Core.Num
 /-! GENERATED by harness/extract.py from /repo/src on every check run. Do not edit. -/
